@@ -6,6 +6,7 @@ import (
 	"os"
 	"sort"
 	"strings"
+	"time"
 
 	"golang.org/x/tools/go/ssa"
 )
@@ -51,6 +52,7 @@ type Exec struct {
 	sentinels  map[string]int
 	curDepth   int
 	lastNow    *Term
+	deadline   time.Time
 	stack      []string
 	curInstr   ssa.Instruction
 	tier       string
@@ -252,6 +254,9 @@ func (e *Exec) execBlock(it *item) (items []*item, done []PathRes) {
 		instr := blk.Instrs[i]
 		e.stats.Instrs++
 		e.curInstr = instr
+		if e.stats.Instrs&0x3ff == 0 && !e.deadline.IsZero() && time.Now().After(e.deadline) {
+			panic(unsupported("harness time budget exceeded (the exploration is reported as not finished, never as a pass of the remaining obligations)"))
+		}
 		switch x := instr.(type) {
 		case *ssa.Phi:
 			continue // evaluated on the edge
@@ -330,6 +335,9 @@ func (e *Exec) enter(st *State, fr *Frame, pred, succ *ssa.BasicBlock) []*item {
 func (e *Exec) feasible(st *State, extra *Term) bool {
 	if extra.IsFalse() {
 		return false
+	}
+	if !e.deadline.IsZero() && time.Now().After(e.deadline) {
+		panic(unsupported("harness time budget exceeded (the exploration is reported as not finished, never as a pass of the remaining obligations)"))
 	}
 	q := append(append([]*Term(nil), st.pc...), extra)
 	before := e.sol.Stats.Millis
